@@ -175,7 +175,7 @@ M('I1', 'src/xdoctest/utils/util_import.py', """        subdir = dirname(modpath
             subdir = dirname(subdir)
         return True""", """        return True""", ['C17'], '__init__ chain check skipped')
 M('F0', 'src/xdoctest/doctest_part.py', "            for line in want_text.splitlines():",
-  "            for line in want_text.splitlines()[:-1] or want_text.splitlines():", ['C18', 'C19'],
+  "            for line in want_text.splitlines()[:-1] or want_text.splitlines():", ['C18'],
   'format_part drops the last want line of multi-line wants')
 M('N1', 'src/xdoctest/doctest_part.py', "            start = startline + self.line_offset\n",
   "            start = startline + self.line_offset + (1 if self.line_offset else 0)\n", ['C18'],
@@ -254,7 +254,7 @@ M('R3', 'src/xdoctest/runner.py', """            summaries.append(summary)
             if example.warn_list:""", """            if summary['skipped'] and summaries:
                 continue
             summaries.append(summary)
-            if example.warn_list:""", ['C10', 'C15'], 'a skipped doctest after the first is dropped from the tally')
+            if example.warn_list:""", ['C10'], 'a skipped doctest after the first is dropped from the tally')
 
 
 M('PL1', 'src/xdoctest/plugin.py', """        if self.dtest.is_disabled(pytest=True):
